@@ -6,7 +6,7 @@ from typing import Dict, List, Optional, Tuple
 
 from ..core import AnalysisError, Program, RuleResult, dotted, short, walk_no_nested
 from ..flow import guards
-from ..relmodel import FnEval, TreeModel, Undefined, run_block
+from ..relmodel import FnEval, RelEval, TreeModel, Undefined, run_block
 from ..resolve import method_def
 
 MODEL = "model.reconciliation"
@@ -306,3 +306,180 @@ RULES = {
     "EVENT-TABLE": event_table,
     "CONSERVED-SIDE": conserved_side,
 }
+
+
+# ---------------------------------------------------------------------------
+# left / right roles of the layout branches
+
+
+def layout_sides(prog: Program) -> RuleResult:
+    """Symbolic execution of the event handlers of render.layout._compute_branches over the relational model."""
+    from .model_spec import model_event
+
+    res = RuleResult(
+        "LAYOUT-SIDES",
+        "for every configuration of (node species, child species, child species) of the kind a handler of "
+        "_compute_branches is written for, the branch it stores has as `left` a lineage that lives below the first "
+        "child species and as `right` one below the second child species (speciation), resp. the conserved child "
+        "as `left` and the transferred child as `right` (transfer); and every _add_losses call passes the species "
+        "of the very gene it is given. The drawing code reads layout[left species].anchors[branch.left]: a "
+        "branch whose sides are crossed references an anchor that does not exist",
+    )
+    modname = "render.layout"
+    mod = prog.module(modname)
+    fn = prog.func(modname, "_compute_branches")
+    model = TreeModel(3)
+    # locate the handlers: `if event == NodeEvent.K:` chain
+    handlers: Dict[str, List[ast.stmt]] = {}
+    for node in ast.walk(fn):
+        if isinstance(node, ast.If) and isinstance(node.test, ast.Compare) and len(node.test.ops) == 1 and isinstance(node.test.ops[0], ast.Eq):
+            name = dotted(node.test.comparators[0]) or dotted(node.test.left) or ""
+            if name.startswith("NodeEvent.") and dotted(node.test.left) == "event":
+                handlers[name.split(".")[1]] = node.body
+    for kind in ("SPECIATION", "DUPLICATION", "HORIZONTAL_TRANSFER"):
+        if kind not in handlers:
+            raise AnalysisError(f"_compute_branches: handler of {kind} not found")
+    # the unpacking `left_gene, right_gene = root_gene.children`
+    unpack = None
+    for st in ast.walk(fn):
+        if isinstance(st, ast.Assign) and isinstance(st.targets[0], ast.Tuple) and isinstance(st.value, ast.Attribute) and st.value.attr == "children":
+            if len(st.targets[0].elts) == 2 and all(isinstance(e, ast.Name) for e in st.targets[0].elts):
+                unpack = [e.id for e in st.targets[0].elts]
+                node_var = dotted(st.value.value)
+    if unpack is None:
+        raise AnalysisError("_compute_branches: `left, right = <gene>.children` not found")
+    for kind, body in handlers.items():
+        configs = [(n, l, r) for n in model.nodes for l in model.nodes for r in model.nodes if model_event(model, n, l, r) == kind]
+        construct = f"{modname}:_compute_branches/{kind}/sides"
+        bad = None
+        checked = 0
+        for n, l, r in configs:
+            if kind == "SPECIATION" and not model.children(n):
+                continue
+            genes = {unpack[0]: "c0", unpack[1]: "c1"}
+            species_of = {"c0": l, "c1": r}
+            out = _run_handler(body, model, n, genes, species_of, node_var)
+            checked += 1
+            if out is None:
+                raise AnalysisError(f"{construct}: the handler does not store a branch with `left` and `right`")
+            left_id, right_id, loss_problems = out
+            problem = None
+            if loss_problems:
+                problem = loss_problems[0]
+            elif kind == "SPECIATION":
+                c0, c1 = model.children(n)
+                if not (model.anc(c0, species_of[left_id]) and model.anc(c1, species_of[right_id])):
+                    problem = "the `left` lineage is not below the first child species (or the `right` one not below the second)"
+            elif kind == "HORIZONTAL_TRANSFER":
+                if not (model.anc(n, species_of[left_id]) and not model.anc(n, species_of[right_id])):
+                    problem = "`left` is not the conserved child / `right` is not the transferred child"
+            elif kind == "DUPLICATION":
+                if {left_id, right_id} != {"c0", "c1"}:
+                    problem = "the two sides are not the two children"
+            if problem and bad is None:
+                bad = (problem, (n, l, r))
+        if bad:
+            problem, cfg = bad
+            res.fail(
+                construct,
+                f"{problem} when {model.describe(('node species', 'first child', 'second child'), cfg)}",
+                mod,
+                body[0],
+            )
+        else:
+            res.ok(construct, f"{checked} {kind.lower()} configurations: sides and loss arguments consistent")
+    return res
+
+
+def _run_handler(body, model: TreeModel, n: int, genes: Dict[str, str], species_of: Dict[str, int], node_var: str):
+    """Execute a handler block symbolically. Returns (left lineage, right lineage, problems) at the branch store."""
+    species: Dict[str, int] = {}
+    problems: List[str] = []
+    result: List[Tuple[str, str]] = []
+
+    def gene_of(expr: ast.AST) -> Optional[str]:
+        if isinstance(expr, ast.Name) and expr.id in genes:
+            return genes[expr.id]
+        return None
+
+    def term(expr: ast.AST) -> Optional[int]:
+        if isinstance(expr, ast.Name):
+            if expr.id == "root_species":
+                return n
+            if expr.id in species:
+                return species[expr.id]
+        if isinstance(expr, ast.Subscript) and dotted(expr.value) == "mapping":
+            g = gene_of(expr.slice)
+            if g is not None:
+                return species_of[g]
+            if dotted(expr.slice) == node_var:
+                return n
+        return None
+
+    ev = RelEval(model, term, ("species_lca",))
+
+    def pair(expr: ast.AST) -> Optional[Tuple[str, str]]:
+        if isinstance(expr, ast.Tuple) and len(expr.elts) == 2:
+            a, b = gene_of(expr.elts[0]), gene_of(expr.elts[1])
+            if a and b:
+                return a, b
+        if isinstance(expr, ast.IfExp):
+            return pair(expr.body if ev.truth(expr.test) else expr.orelse)
+        return None
+
+    def run(stmts) -> None:
+        for st in stmts:
+            if isinstance(st, ast.If):
+                run(st.body if ev.truth(st.test) else st.orelse)
+                continue
+            if isinstance(st, ast.Assign) and len(st.targets) == 1:
+                tgt, val = st.targets[0], st.value
+                if isinstance(tgt, ast.Tuple) and len(tgt.elts) == 2 and all(isinstance(e, ast.Name) for e in tgt.elts):
+                    got = pair(val)
+                    if got is None:
+                        raise AnalysisError(f"layout sides: `{short(st)}` is not an assignment of the two children")
+                    genes[tgt.elts[0].id], genes[tgt.elts[1].id] = got
+                    continue
+                if isinstance(tgt, ast.Name):
+                    if isinstance(val, ast.Call) and dotted(val.func) == "_add_losses":
+                        args = val.args
+                        g = gene_of(args[1]) if len(args) > 1 else None
+                        if g is None:
+                            raise AnalysisError(f"layout sides: `{short(val, 60)}` does not pass a child gene")
+                        try:
+                            start = ev.term(args[2])
+                        except Undefined:
+                            start = None
+                        if start is not None and start != species_of[g]:
+                            problems.append(f"`{short(val, 70)}` starts the losses of one child from the species of the other")
+                        genes[tgt.id] = g
+                        continue
+                    g = gene_of(val)
+                    if g is not None:
+                        genes[tgt.id] = g
+                        continue
+                    try:
+                        species[tgt.id] = ev.term(val)
+                        continue
+                    except (AnalysisError, Undefined):
+                        continue  # name, synteny ... : not a role
+                if isinstance(tgt, ast.Subscript) and isinstance(val, ast.Dict):
+                    entries = {k.value: v for k, v in zip(val.keys, val.values) if isinstance(k, ast.Constant)}
+                    if "left" in entries and "right" in entries:
+                        a, b = gene_of(entries["left"]), gene_of(entries["right"])
+                        if a is None or b is None:
+                            raise AnalysisError("layout sides: `left`/`right` of the stored branch are not child genes")
+                        result.append((a, b))
+                    continue
+                continue
+            if isinstance(st, (ast.Expr, ast.Pass, ast.Raise, ast.Assert, ast.AugAssign)):
+                continue
+            raise AnalysisError(f"layout sides: statement `{short(st)}` not supported")
+
+    run(body)
+    if not result:
+        return None
+    return result[-1][0], result[-1][1], problems
+
+
+RULES["LAYOUT-SIDES"] = layout_sides
